@@ -6,6 +6,15 @@ from copulas.univariate import GaussianUnivariate
 from copulas.univariate.base import BoundedType, ParametricType, ScipyModel
 
 
+class UserError(Exception):
+    """an exception type of the user's own"""
+
+
+# "cannot be fitted" = fit raises; which exception is the distribution's business
+ERRORS = (ValueError, RuntimeError, TypeError, KeyError, AttributeError, ZeroDivisionError, IndexError, UserError, np.linalg.LinAlgError,
+          NotImplementedError, OverflowError)
+
+
 class StubBase(ScipyModel):
     """A candidate whose Kolmogorov-Smirnov distance to N(0,1)-like data is controlled by RANK
     (1 = best, larger = worse); RANK 0 cannot be fitted."""
@@ -13,13 +22,14 @@ class StubBase(ScipyModel):
     BOUNDED = BoundedType.UNBOUNDED
     MODEL_CLASS = norm
     RANK = 1
+    POSITION = 0
 
     def _fit_constant(self, X):
         self._params = {'loc': np.unique(X)[0], 'scale': 0}
 
     def _fit(self, X):
         if self.RANK == 0:
-            raise ValueError('this candidate cannot be fitted')
+            raise ERRORS[self.POSITION % len(ERRORS)]('this candidate cannot be fitted')
         self._params = {'loc': float(np.mean(X)), 'scale': float(np.std(X))}
 
     def _is_constant(self):
@@ -34,15 +44,16 @@ class StubBase(ScipyModel):
 
 
 def stub_class(position, rank):
-    return type('Stub_p%d_r%d' % (position, rank), (StubBase,), {'RANK': rank, '__module__': __name__})
+    return type('Stub_p%d_r%d' % (position, rank), (StubBase,), {'RANK': rank, 'POSITION': position - 1, '__module__': __name__})
 
 
 class PickyGaussian(GaussianUnivariate):
-    """A user distribution that raises in fit for columns whose values are shifted beyond 500."""
+    """A user distribution that raises in fit for columns whose values are shifted beyond 500; a shift of k * 1000 selects the
+    k-th exception type of ERRORS."""
 
     def _fit(self, X):
         if np.mean(X) > 500:
-            raise RuntimeError('PickyGaussian refuses this column')
+            raise ERRORS[int(round(np.mean(X) / 1000.0)) % len(ERRORS)]('PickyGaussian refuses this column')
         GaussianUnivariate._fit(self, X)
 
 
